@@ -1,6 +1,7 @@
 //! `mc <ID> quick|thorough` runs the check of one property; `mc <ID> --replay <file>`
 //! re-executes one recorded case without any explorer.
 
+mod c01;
 mod c03;
 mod c04;
 mod c05;
@@ -44,6 +45,7 @@ fn main() {
             r = &r["case"];
         }
         match id {
+            "C01" => c01::replay(r),
             "C03" => c03::replay(r),
             "C04" => c04::replay(r),
             "C05" => c05::replay(r),
@@ -71,6 +73,7 @@ fn main() {
     }
     let tier = Tier::from_args(Some(args[2].as_str()));
     let code = match id {
+        "C01" => c01::run(tier),
         "C03" => c03::run(tier),
         "C04" => c04::run(tier),
         "C05" => c05::run(tier),
